@@ -90,6 +90,7 @@ namespace sqf::runtime
         bool m_bubble_variable;
         bool m_started;
         bool m_die;
+        bool m_globals_selected;
         size_t m_value_stack_pos;
 #ifdef SQFVM_RUNTIME_VERIF
     public:
@@ -123,7 +124,8 @@ namespace sqf::runtime
             m_globals_value_scope(globals_scope),
             m_bubble_variable(true),
             m_started(false),
-            m_die(false)
+            m_die(false),
+            m_globals_selected(false)
         {}
 
 #ifdef DF__SQF_RUNTIME__ASSEMBLY_DEBUG_ON_EXECUTE
@@ -252,6 +254,10 @@ namespace sqf::runtime
         sqf::runtime::instruction_set::iterator current() const { return m_instruction_set.begin() + m_position; }
         std::shared_ptr<sqf::runtime::value_scope> globals_value_scope() const { return m_globals_value_scope; }
         void globals_value_scope(std::shared_ptr<sqf::runtime::value_scope> scope) { m_globals_value_scope = scope; }
+        // True if this frame selected its globals scope itself (with-do).
+        // Every other frame uses the globals scope of the frame it is pushed onto.
+        bool globals_selected() const { return m_globals_selected; }
+        void globals_selected(bool flag) { m_globals_selected = flag; }
 
         /// <summary>
         /// Moves current to next instruction.
